@@ -314,3 +314,28 @@ func joinKinds(m map[string]bool) string {
 	sort.Strings(ks)
 	return strings.Join(ks, "+")
 }
+
+// coqGuides prints the [table] of a case: (old list, new list, index list) triples.
+func coqGuides(gs []guideEntry) string {
+	xs := make([]string, len(gs))
+	for i, g := range gs {
+		o := make([]string, len(g.Old))
+		for k, e := range g.Old {
+			o[k] = coqTyped(e)
+		}
+		n := make([]string, len(g.New))
+		for k, e := range g.New {
+			n[k] = coqTyped(e)
+		}
+		ix := make([]string, len(g.Idx))
+		for k, j := range g.Idx {
+			if j < 0 {
+				ix[k] = "None"
+			} else {
+				ix[k] = fmt.Sprintf("(Some %d)", j)
+			}
+		}
+		xs[i] = "(" + vh.CoqList(o) + ", " + vh.CoqList(n) + ", " + vh.CoqList(ix) + ")"
+	}
+	return vh.CoqList(xs)
+}
